@@ -1,7 +1,7 @@
 # Check scaffolding: obligations, verdict discipline, replay, known findings, evidence.
 import os, sys, json, time, subprocess, re, hashlib, random, traceback
 import z3
-from common import HERE, OUT, REPO, GOENV
+from common import HERE, OUT, REPO, GOENV, EVIDENCE_DIR
 import gosym
 
 KNOWN_FILE = os.path.join(HERE, 'known_findings.txt')
@@ -171,8 +171,8 @@ class Check:
         cov.update({k: v for k, v in self.extra.items() if k != 'explanation'})
         ev = dict(property_id=self.pid, tier=self.tier, seed=self.seed, level=self.level, coverage=cov,
                   assumptions=self.assumptions, wall_s=round(wall, 2), violations=len(self.violations))
-        os.makedirs(os.path.join(HERE, 'evidence'), exist_ok=True)
-        json.dump(ev, open(os.path.join(HERE, 'evidence', self.pid + '.json'), 'w'), indent=1, default=str)
+        os.makedirs(EVIDENCE_DIR, exist_ok=True)
+        json.dump(ev, open(os.path.join(EVIDENCE_DIR, self.pid + '.json'), 'w'), indent=1, default=str)
         print('%s tier=%s obligations=%d proved=%d inconclusive=%d violations=%d known=%d wall=%.1fs solver=%.1fs' % (
             self.pid, self.tier, len(self.obls), n_ok, len(self.inconclusive), len(self.violations), len(self.known_hits), wall, self.solver_s))
         sys.exit(1 if self.violations else 0)
